@@ -160,6 +160,7 @@ func init() {
 		partGated(c, a, []func(*sut.Proc) *e2.Result{e2.G3LateUnregister, e2.G3cLastLeaveVsCreate}, c.Pick(1, 4))
 		partStepThrough(c, a, []string{"lastleave", "create"})
 		partSwitchPending(c, a) // nothing of a member survives in the session it left by switching
+		partLagSenders(c, a)    // a stalled member of one session does not hold up anybody outside it
 		return a.finish(c)
 	}
 	registry["C17"] = checkC17
